@@ -57,8 +57,8 @@ class C05(Prop):
             mode = rng.choice(["eq", "int", "frac"])
             sp = [Fraction(1)] * n if mode == "eq" else [Fraction(rng.randint(1, 4)) for _ in range(n)] if mode == "int" else [Fraction(rng.randint(1, 5), rng.randint(1, 5)) for _ in range(n)]
             ps = mode == "eq" and i % 2 == 0
-            yield dict(entry=("ProbabilisticSerial" if ps else "SimultaneousEating") + ".bistochastic", family="random_" + mode, P=P,
-                       speeds=[str(x) for x in sp], ps=ps, dtype=rng.choice(["int64", "float"]))
+            yield dict(entry=("ProbabilisticSerial" if ps else "SimultaneousEating") + ".bistochastic", family="random_" + mode + ("_history" if i % 4 == 1 else ""), P=P,
+                       speeds=[str(x) for x in sp], ps=ps, dtype=rng.choice(["int64", "float"]), history=(i % 4 == 1))
         # speeds of very different magnitude: a slow eater's whole share is of the order of the 1e-5 .. 1e-7 tolerances in play
         for i in range(30 if tier == "quick" else 600):
             n = rng.randint(2, 4)
@@ -84,9 +84,20 @@ class C05(Prop):
         sp = np.array([float(Fraction(s)) for s in case["speeds"]])
         A0, sp0 = A.copy(), sp.copy()
         def go():
+            prof = StrictCompleteProfile.of(A)
+            rule = ProbabilisticSerial(zero_indexed=True) if case["ps"] else SimultaneousEating(zero_indexed=True)
+            if case.get("history"):       # the same rule object (and profile object) was used before: other speeds, and the profile edited in place
+                try:
+                    n = A.shape[0]; keep = A.copy()
+                    if not case["ps"]: rule.bistochastic(prof, np.array([1.0 + (i % 3) for i in range(n)]))
+                    A[...] = np.roll(keep, 1, axis=1)
+                    rule.bistochastic(prof) if case["ps"] else rule.bistochastic(prof, sp)
+                    A[...] = keep
+                except Exception:  # noqa
+                    A[...] = keep
             if case["ps"]:
-                return ProbabilisticSerial(zero_indexed=True).bistochastic(StrictCompleteProfile.of(A))
-            return SimultaneousEating(zero_indexed=True).bistochastic(StrictCompleteProfile.of(A), sp)
+                return rule.bistochastic(prof)
+            return rule.bistochastic(prof, sp)
         r = supervised(go, self.deadline)
         if r[0] != "ok":
             return dict(status=r[0], err=(r[1] if len(r) > 1 else ""), msg=(r[2] if len(r) > 2 else ""))
